@@ -6,6 +6,14 @@ Families:
          by node with the Lean machine (`Qv.Res.step impl`)
   seq    random sequences of length <= 15 with random operands (indices, slices, operand collections,
          user functions), incl. a stream with ill-typed states (conversion KeyError path)
+  inf    values from the extended rationals Q u {+inf, -inf} (`float('inf')` is the usual tag of an infeasible state),
+         ties between infinite values and huge finite values (+-2^80), on every path that recomputes `best`
+         (pop / remove of the best, item and slice assignment and deletion) and through the derived collections:
+         `inftree` = every sequence of length <= 3 over 22 core operations + 17 operations with infinite / huge
+         operands from 4 initial collections in which +inf / -inf / ties occur; `infseq` = random sequences in which
+         most values are infinite (so that "every remaining value is +inf" is reached); and 12% infinite / huge values
+         in the ordinary `seq` stream.  NaN is excluded: `x < nan` and `nan < x` are both False, so "an element with
+         the smallest value" is not defined on a collection holding a NaN and the property states nothing there.
 
 Two collections are kept (`cur`, the receiver, and `aux`, a second AnnealResults object that serves as
 operand of extend / += / +), so that operands with their own history occur.
@@ -33,12 +41,14 @@ from .common import exc_name
 
 CEXT = "plain"
 RULE = ("operation histories on AnnealResults: all sequences of length <=3 over a 61-operation alphabet (thorough: "
-        "also length <=4 over its 35-operation core) from 5 initial collections (<=3 results, duplicated values, empty operands), plus "
-        "random sequences of length <=15 with random operands; a history is non-trivial when some step changes "
+        "also length <=4 over its 35-operation core) from 5 initial collections (<=3 results, duplicated values, empty operands), "
+        "all sequences of length <=3 over 22 core operations + 17 operations with +inf / -inf / +-2^80 operands from 4 initial collections "
+        "holding infinite values and ties, plus "
+        "random sequences of length <=15 with random operands (12% infinite / huge values; a second stream with 70%); a history is non-trivial when some step changes "
         "the best value / emptiness or raises; distinct = distinct (initial collection, sequence) JSON")
 ASSUMPTIONS = [
     "states are dicts with int labels, compared as label-sorted association lists; values are int / Fraction / "
-    "dyadic float (exact)",
+    "dyadic float (exact) / float('inf') / -float('inf'); NaN values are outside the property (no least element)",
     "user functions passed to filter / filter_states / apply_function / convert_states are drawn from a small "
     "named family (the Lean theorems quantify over arbitrary functions)",
     "`res *= n` is modelled as `res = res * n` (Python resolves it to AnnealResults.__mul__); object identity / "
@@ -54,6 +64,14 @@ Z = [[[0, 0], [1, 0]], "0", False]       # a new minimum
 S = [[[0, 1], [1, -1]], "1", True]       # spin result
 H = [[[0, 1]], "1/2", False]
 N = [[[0, -1], [1, 1]], "-1", True]
+# the extended values: +inf (two different states), -inf, huge finite values (2^80: exact as int, Fraction and float)
+P = [[[0, 1], [1, 0]], "inf", False]
+P2 = [[[0, 0], [1, 0]], "inf", False]
+PS = [[[0, -1], [1, 1]], "inf", True]
+M = [[[0, 1], [1, 1]], "-inf", False]
+HUGE = str(2 ** 80)
+HG = [[[0, 0]], HUGE, False]
+HN = [[[0, 1]], "-" + HUGE, False]
 
 INITS = [[], [A], [B, A], [A, B, C], [S, Z, S]]
 
@@ -91,9 +109,36 @@ EXTRA = [
     {"o": "setslice_iter", "sl": sl(1, None), "l": [Z]},
 ]
 
+# the `inf` tree: initial collections in which removing / replacing the best leaves only infinite values (or ties of them)
+INF_INITS = [[A, P], [P, A, P2], [M, P, M], [HG, PS, HN]]
+INF_OPS = [
+    {"o": "append", "r": P}, {"o": "append", "r": M}, {"o": "add_state", "r": P2}, {"o": "insert", "i": 0, "r": P},
+    {"o": "remove", "r": P}, {"o": "remove", "r": M},
+    {"o": "setitem", "i": 0, "r": P}, {"o": "setitem", "i": -1, "r": P2}, {"o": "setitem", "i": 0, "r": M},
+    {"o": "setslice", "sl": sl(0, 1), "l": [P]}, {"o": "setslice", "sl": sl(None, None, 2), "l": [P2]},
+    {"o": "extend_ar", "l": [P]}, {"o": "iadd_ar", "l": [M]}, {"o": "extend_list", "l": [P, HG]},
+    {"o": "apply_function", "f": "setvalue", "c": "inf"}, {"o": "apply_function", "f": "penalise", "k": 0, "v": 1},
+    {"o": "filter", "f": "value_gt", "c": HUGE},
+]
+
+# the part of the core alphabet that goes into the `inf` tree (one representative per kind of operation)
+INF_CORE = [op for op in CORE if op in (
+    {"o": "append", "r": Z}, {"o": "insert", "i": 0, "r": Z}, {"o": "remove", "r": A}, {"o": "pop", "i": 0}, {"o": "pop", "i": -1},
+    {"o": "extend_aux"}, {"o": "iadd_ar", "l": [Z]}, {"o": "add", "l": [C]}, {"o": "mul", "i": 2}, {"o": "getslice", "sl": sl(1)},
+    {"o": "setitem", "i": 0, "r": B}, {"o": "delitem", "i": 0}, {"o": "setslice", "sl": sl(0, 1), "l": [B]},
+    {"o": "delslice", "sl": sl(None, 1)}, {"o": "delslice", "sl": sl(None, None, 2)}, {"o": "clear"}, {"o": "sort"},
+    {"o": "copy"}, {"o": "filter", "f": "value_gt", "c": "1"}, {"o": "apply_function", "f": "neg"}, {"o": "swap"},
+    {"o": "stash"})]
+
 # ------------------------------------------------------------------ implementation side
 
+INF = float("inf")
+
 def num(s, style="frac"):
+    if s == "inf":
+        return INF
+    if s == "-inf":
+        return -INF
     f = Fraction(s)
     if style == "float" and (f.denominator & (f.denominator - 1)) == 0:
         return float(f)
@@ -104,6 +149,8 @@ def num(s, style="frac"):
 def vs(v):
     if isinstance(v, int):
         return str(v)
+    if isinstance(v, float) and v in (INF, -INF):
+        return "inf" if v > 0 else "-inf"
     f = Fraction(v)
     return str(f.numerator) if f.denominator == 1 else "%d/%d" % (f.numerator, f.denominator)
 
@@ -157,6 +204,8 @@ class Impl:
         if f == "setvalue":
             c = num(op["c"]); return lambda r: R(r.state, c, r.spin)
         if f == "square": return lambda r: R(r.state, r.value * r.value, r.spin)
+        if f == "penalise":      # tag the states holding k = v as infeasible
+            k, v = op["k"], op["v"]; return lambda r: R(r.state, INF if r.state.get(k) == v else r.value, r.spin)
         if f == "id": return lambda r: r
         raise ValueError(f)
 
@@ -492,6 +541,7 @@ def pycode(case):
     """the history as Python source (public API only), for the report of a failing input"""
     def R(r):
         return "AnnealResult({%s}, %s, %s)" % (", ".join("%d: %d" % (k, v) for k, v in r[0]),
+                                                "float('%s')" % r[1] if "inf" in r[1] else
                                                 r[1] if "/" not in r[1] else "Fraction(%s)" % r[1].replace("/", ", "), r[2])
     def L(l):
         return "[" + ", ".join(R(r) for r in l) + "]"
@@ -664,7 +714,8 @@ def explore(ctx, I, finder, init, aux, prefix, alphabet, depth):
 
 # ------------------------------------------------------------------ random sequences
 
-def gen_result(rng, illtyped=False):
+def gen_result(rng, illtyped=False, pinf=0.12):
+    """pinf: probability of a value outside the small finite pool (+inf twice as likely as -inf, +-2^80)"""
     spin = rng.random() < 0.3
     n = rng.randint(0, 3)
     labels = sorted(rng.sample(range(4), n))
@@ -675,10 +726,12 @@ def gen_result(rng, illtyped=False):
     r = rng.random()
     v = (str(rng.randint(-2, 3)) if r < 0.75 else rng.choice(["1/2", "-1/2", "3/2", "5/4", "-3/4"]) if r < 0.95
          else rng.choice(["1/3", "-2/3", "7/5"]))
+    if rng.random() < pinf:
+        v = rng.choice(["inf", "inf", "inf", "inf", "-inf", "-inf", HUGE, "-" + HUGE])
     return [st, v, spin]
 
-def gen_list(rng, ill, lo=0, hi=3):
-    return [gen_result(rng, ill) for _ in range(rng.randint(lo, hi))]
+def gen_list(rng, ill, lo=0, hi=3, pinf=0.12):
+    return [gen_result(rng, ill, pinf) for _ in range(rng.randint(lo, hi))]
 
 def gen_slice(rng):
     def e():
@@ -686,12 +739,12 @@ def gen_slice(rng):
     st = rng.choice([None, None, 1, 1, -1, 2, -2, 3, 0] if rng.random() < 0.5 else [None, 1])
     return [e(), e(), st]
 
-def gen_op(rng, ill, recent):
+def gen_op(rng, ill, recent, pinf=0.12):
     """`recent`: results recently put into the collection (so that remove finds something)"""
     def res():
         if recent and rng.random() < 0.5:
             return rng.choice(recent)
-        r = gen_result(rng, ill); recent.append(r); return r
+        r = gen_result(rng, ill, pinf); recent.append(r); return r
     o = rng.choice([
         "append", "append", "add_state", "insert", "insert", "remove", "remove", "pop", "pop", "getitem",
         "extend_list", "extend_ar", "extend_ar", "extend_self", "extend_aux", "iadd_list", "iadd_ar", "iadd_ar",
@@ -708,7 +761,7 @@ def gen_op(rng, ill, recent):
         op["i"] = rng.choice([-1, 0, 0, 1, 2, 2, 3])
     if o in ("extend_list", "extend_ar", "iadd_list", "iadd_ar", "add", "setslice", "construct", "extend_iter",
              "iadd_iter", "setslice_iter"):
-        op["l"] = gen_list(rng, ill, 0, 3); recent.extend(op["l"])
+        op["l"] = gen_list(rng, ill, 0, 3, pinf); recent.extend(op["l"])
     if o == "add":
         op["plain"] = rng.random() < 0.5
     if o in ("getslice", "setslice", "delslice", "setslice_iter"):
@@ -717,29 +770,33 @@ def gen_op(rng, ill, recent):
         op["rev"] = rng.random() < 0.3
     if o == "filter":
         op["f"] = rng.choice(["value_le", "value_gt", "spin", "nospin", "all", "none"])
-        op["c"] = str(rng.randint(-1, 2))
+        op["c"] = str(rng.randint(-1, 2)) if rng.random() > pinf else rng.choice(["inf", "-inf", HUGE])
     if o == "filter_states":
         op["f"] = rng.choice(["has", "len_le", "all", "none"]); op["k"] = rng.randint(0, 3); op["v"] = rng.choice([0, 1, -1])
     if o == "apply_function":
-        op["f"] = rng.choice(["neg", "shift", "setvalue", "square", "id"]); op["c"] = rng.choice(["1", "-2", "1/2"])
+        op["f"] = rng.choice(["neg", "shift", "setvalue", "square", "id", "penalise"]); op["c"] = rng.choice(["1", "-2", "1/2"])
+        if op["f"] == "setvalue" and rng.random() < 3 * pinf:
+            op["c"] = rng.choice(["inf", "inf", "-inf"])        # (shift keeps a finite constant: inf + -inf would be NaN)
+        if op["f"] == "penalise":
+            op["k"] = rng.randint(0, 3); op["v"] = rng.choice([0, 1, -1])
     if o == "convert_states":
         op["f"] = rng.choice(["relabel", "drop", "id"]); op["k"] = rng.randint(0, 2)
     return op
 
-def gen_case(rng, maxlen=15):
+def gen_case(rng, maxlen=15, pinf=0.12):
     ill = rng.random() < 0.08
     recent = []
-    init = gen_list(rng, ill, 0, 3); recent.extend(init)
-    aux = gen_list(rng, ill, 0, 2) if rng.random() < 0.5 else []
+    init = gen_list(rng, ill, 0 if pinf < 0.5 else 1, 3, pinf); recent.extend(init)
+    aux = gen_list(rng, ill, 0, 2, pinf) if rng.random() < 0.5 else []
     seq, grow = [], 0
     for _ in range(rng.randint(1, maxlen)):
-        op = gen_op(rng, ill, recent)
+        op = gen_op(rng, ill, recent, pinf)
         if op["o"] in ("mul", "imul", "rmul", "extend_self", "iadd_self", "add_aux", "extend_aux", "iadd_aux", "stash"):
             grow += 1
             if grow > 5:       # keep the collections small (each of these can double the size)
                 continue
         seq.append(op)
-    c = {"family": "seq", "init": init, "seq": seq, "style": rng.choice(["frac", "frac", "float"])}
+    c = {"family": "seq" if pinf < 0.5 else "infseq", "init": init, "seq": seq, "style": rng.choice(["frac", "frac", "float"])}
     if aux:
         c["aux"] = aux
     if c["style"] == "float" and not all_dyadic(c):
@@ -748,8 +805,11 @@ def gen_case(rng, maxlen=15):
 
 def all_dyadic(c):
     def dy(s):
+        if "inf" in s:
+            return True
         d = Fraction(s).denominator
-        return d & (d - 1) == 0
+        # (the huge values +-2^80 are exact as floats, but 2^80 + 1/2 is not: histories holding them run with int / Fraction)
+        return d & (d - 1) == 0 and abs(Fraction(s)) < 2 ** 40
     vals = [r[1] for r in c["init"] + c.get("aux", [])]
     for op in c["seq"]:
         if "r" in op: vals.append(op["r"][1])
@@ -771,17 +831,29 @@ def check(ctx):
         for init in INITS:
             for op in CORE:
                 explore(ctx, I, finder, init, [], [op], CORE, 3)      # lengths 2..4 over the core alphabet
+    # the extended values: every sequence of length <= 3 over the core + infinite / huge operands
+    inf_alpha = INF_CORE + INF_OPS
+    n0 = ctx.hist.get("tree:nodes", 0)
+    for k, init in enumerate(INF_INITS):
+        explore(ctx, I, finder, init, [P, A] if k % 2 else [], [], inf_alpha, 3)
+    ctx.count("inftree:nodes", ctx.hist.get("tree:nodes", 0) - n0)
+    ctx.count("tree:alphabet-inf", len(inf_alpha))
+    for init in INF_INITS:
+        for op in inf_alpha:
+            ctx.distinct.add(json.dumps([init, op], sort_keys=True))
     ctx.count("tree:alphabet-core", len(CORE)); ctx.count("tree:alphabet-full", len(full))
     # the exhaustive part also counts as cases for the evidence: one per (init, first op)
     for init in INITS:
         for op in full:
             ctx.distinct.add(json.dumps([init, op], sort_keys=True))
     cases = [gen_case(ctx.rng) for _ in range(ctx.scale(2000, 20000))]
+    cases += [gen_case(ctx.rng, 10, pinf=0.7) for _ in range(ctx.scale(800, 8000))]      # family infseq
     by_style = {}
     for c in cases:
         by_style.setdefault(c["style"], []).append(c)
     for style, cs in sorted(by_style.items()):
-        process_seqs(ctx, Impl(style), cs, finder)
+        for fam in ("seq", "infseq"):
+            process_seqs(ctx, Impl(style), [c for c in cs if c["family"] == fam], finder, family=fam)
     if ctx.diffs and not finder.best:
         search(ctx, I, finder)
     finder.emit(ctx, I)
@@ -793,7 +865,7 @@ def search(ctx, I, finder):
         c = d["case"]
         if "seq" not in c:
             continue
-        for op in CORE + EXTRA:
+        for op in CORE + EXTRA + INF_OPS:
             cc = {"init": c["init"], "aux": c.get("aux", []), "seq": c["seq"] + [op]}
             try:
                 _, bad = run_seq(I, cc)
@@ -801,8 +873,8 @@ def search(ctx, I, finder):
                 continue
             for k, sig, why in bad:
                 finder.add(sig, dict(cc, seq=cc["seq"][:k + 1]), why)
-    for _ in range(3000):
-        c = gen_case(ctx.rng)
+    for k in range(3000):
+        c = gen_case(ctx.rng, pinf=0.7 if k % 3 == 0 else 0.12)
         _, bad = run_seq(Impl(c["style"]), c)
         for k, sig, why in bad:
             finder.add(sig, dict(c, seq=c["seq"][:k + 1]), why)
